@@ -218,13 +218,15 @@ CLAIMED["C03"] = dict(
         "the collision probe, copy, destination switch with truncation of the old destination, in-place rewriting of the first file of the range "
         "with its stale tail (unprocessed records never overlapped because the writing head stays below the read position), conditional repoint, "
         "hint write, source clearing, final truncation. C03_reachable_states_qualify: every state reachable by client operations and clean "
-        "restarts (C02's invariant) meets the precondition provided no record extends past DataFileMax. C03_gc_then_history: a pass followed by "
+        "restarts (C02's invariant) meets the precondition provided no record extends past DataFileMax. C03_any_number_of_passes: the state after a pass satisfies relation AND precondition again, so "
+        "any sequence of passes over any legal ranges (previously collected files) preserves every read. C03_gc_then_history: a pass followed by "
         "ANY history of client operations answers exactly as the reference map, the pass being invisible. Correspondence: 120 GC-mode histories "
         "per quick run (half of them a dense profile that fills and switches destinations), range resolved by the real range check, merge on/off, "
         "repeated passes, restarts with index files removed afterwards, replies + GC statistics + directory contents compared with the model; "
         "python reference-map oracle.",
-   note="PARTIAL: hint merge during GC (merge=on), a restart or a second pass AFTER a pass, and colliding keys are covered by correspondence + oracle "
-        "only (the theorem does not re-establish the restart invariant after the pass); the precondition 'no record past DataFileMax' is an "
+   note="PARTIAL: hint merge during GC (merge=on), a RESTART after a pass, and colliding keys are covered by correspondence + oracle "
+        "only (C03_any_number_of_passes re-establishes the GC precondition, so passes may follow one another, but not the restart invariant "
+        "of C02 after a pass); the precondition 'no record past DataFileMax' is an "
         "assumption on the configuration history. Trusted: Coq kernel, translator (flags gc_repoint_conditional, gc_truncates_after_inplace), "
         "harness, python oracle. No axioms.",
    technique="Rocq loop-invariant proof that a GC pass preserves the refinement relation (all states, all ranges); differential correspondence on GC histories incl. directory contents",
@@ -276,16 +278,18 @@ CLAIMED["C18"] = dict(
         "records of one indexed key cannot both survive; (3) C18_pass_layout -- there is a last destination D: files dst0..D hold only current "
         "records above the old end W0 of dst0, files D+1..end are EMPTY (space returned), the records of the earlier file dst0 below W0 are exactly "
         "those that were there before and none straddles W0 (GC only appended to it), the files between dst0 and begin were empty beforehand. "
-        "Proof: a region invariant (GC2) and a prefix invariant (GP) carried through every per-record step (drop / append / destination switch "
-        "with truncation) and every source file alongside C03's loop invariant (proofs/GcView.v, about 450 further lines). (4) The clause 'each "
+        "(3b) C18_second_pass_releases_nothing -- the same pass run again on the state the first one left releases 0 records / 0 bytes (the "
+        "state satisfies the GC precondition again, every record the second pass meets is current). "
+        "Proof: a region invariant (GC2), a prefix invariant (GP) and an offset-order invariant (GS) carried through every per-record step (drop / "
+        "append / destination switch with truncation) and every source file alongside C03's loop invariant, and a second-pass invariant (GR) "
+        "(proofs/GcView.v, about 800 further lines). (4) The clause 'each "
         "exactly once' is REFUTED for forgotten tombstones: C18_dup_tombstone_refuted (known finding F11) evaluates the layout [P Q][K1 Kdel]"
         "[K2 Kdel][Y Z][W], restart with the tree rebuilt, gc(1,2) on the model: tombstones -2 and -4 of K both survive; (1) shows this is the only "
         "way a superseded record survives. Correspondence: 120 GC-mode histories per quick run (half of them dense: destinations fill and switch), "
         "every data file scanned by an independent record scanner before and after each pass, directory contents + GC counters compared with the "
         "model; python oracle: every surviving record in the range is its key's current record (position from meta-get), no duplicate tombstones "
         "(F11 class recorded), prefix of an earlier destination unchanged, the same pass run again releases nothing.",
-   note="PARTIAL: 'running the same pass again releases nothing', hint merge during GC and colliding keys are decided by correspondence + oracle, "
-        "not by a theorem; records are modelled as (offset, record) lists per file, so 'byte-for-byte unchanged' is 'the same records at the "
+   note="PARTIAL: hint merge during GC (merge=on) and colliding keys are decided by correspondence + oracle, not by a theorem; records are modelled as (offset, record) lists per file, so 'byte-for-byte unchanged' is 'the same records at the "
         "same offsets' in the theorem and bytes only in the directory comparison of the correspondence. F11 is an open finding. Trusted: Coq "
         "kernel, translator, harness incl. independent scanner, python oracle. No axioms.",
    technique="Rocq loop-invariant proof over all states/ranges of what the written files contain after a pass + refutation witness; differential correspondence with independent file scanner and spec oracle",
